@@ -5,25 +5,26 @@
   Implementation model: `Core/Compile.lean` (`compile`) + `Core/Machine.lean` (`run`, `runProg`).
   `Pre o o'` (Lemmas/C01Out.lean): `o'` equals `o` if `o` did not run out of fuel, otherwise the
   values of `o` are a prefix of those of `o'`.
-  `cfgF` = the Machine with `cartesian` as the manual prescribes (`MCfg.cartDropsErr = false`;
-  the code as written drops an error of the left operand when the right operand is empty —
-  finding reported by checks/c01.py, repair in design/fixes/C01-cartesian-left-error.diff).
-  `inFragment` (Core/Fragment.lean) = the binder core (stage A of DESIGN §6 C01).
+  `cfgF` = the Machine with `cartesian` / `Path::combinations` as the manual prescribes
+  (`MCfg.cartDropsErr = pathDropsErr = false`; /repo has the repair of `cartesian`; the path
+  variant `.[error][empty]` is an open known finding reported by checks/c01.py).
+  `inFragment pe` (Core/Fragment.lean) = stages A and B of DESIGN §6 C01: everything except
+  `@format` strings, updates, module-qualified names; `pe` = compiled together with the prelude
+  definition `def !empty: {}[];` (needed by `[]` and `try f`).
 
   FULL STATEMENTS (not yet proved; the proved parts below are named `…_partial`):
 
     theorem run_refines_eval (t : Term) (v : Val) (prelude : List Def) :
       ∀ n, ∃ m, ∀ m' ≥ m, Pre (eval n 0 (preludeEnv prelude) t v)
                                (runProg cfgF (compile c01Natives prelude t) m' v)
-    -- for every term of the language (objects, patterns, paths, interpolation, `..`, prelude
-    -- calls, updates via C02) and with the computed `CallType`s executed by the trampoline
+    -- for every term of the language (also `@format`, updates via C02), for an arbitrary prelude
+    -- (calls reaching module 0), and with the computed `CallType`s executed by the trampoline
     -- (`tco_invisible`, stage C), not inline.
 
     theorem run_refined_by_eval …   -- the converse direction (roles of `eval` and `run` exchanged)
 
-    theorem compile_tr_subset (t : Term) cx loc tr st : ∀ x ∈ (term cx loc tr t st).2.1, x ∈ tr
-    -- for every term (proved below for the fragment; all other constructors return `[]`
-    -- syntactically, except `foreach`'s projection with a destructuring pattern and `elif` chains)
+  Round 2: `compile_tr_subset` and `compile_appends` are now proved for EVERY term (no fragment
+  hypothesis); their `_partial` forms are kept as corollaries.
 -/
 import JaqVerif.Lemmas.C01Main
 import JaqVerif.Lemmas.C01Tr
@@ -37,7 +38,7 @@ open Jaq
 at which the run-time environment holds exactly that value; an unbound one is a compile error.
 `Rel` is preserved by every binder (`Rel.v`, `Rel.l`, `Rel.a`, `Rel.sib`, `Rel.par`, `defs_rel`,
 `args_sim`). -/
-theorem envRel_lookup_var {tabf σ loc e} (h : Rel tabf σ loc e) (x : String) (st : St) :
+theorem envRel_lookup_var {pe tabf σ loc e} (h : Rel pe tabf σ loc e) (x : String) (st : St) :
     match findVar σ x with
     | some w => ∃ i, (varC loc x st).1 = .var i ∧ e[i]? = some (.val w) ∧ (varC loc x st).2 = st
     | none => (varC loc x st) = (.id, st.fail x) := by
@@ -50,7 +51,7 @@ theorem envRel_lookup_var {tabf σ loc e} (h : Rel tabf σ loc e) (x : String) (
     exact ⟨loc.total - pos, by simp [varC, h1], h4, by simp [varC, h1]⟩
 
 /-- the same for labels: `break $x` reaches the number bound by the nearest `label $x` -/
-theorem envRel_lookup_label {tabf σ loc e} (h : Rel tabf σ loc e) (x : String) (st : St) :
+theorem envRel_lookup_label {pe tabf σ loc e} (h : Rel pe tabf σ loc e) (x : String) (st : St) :
     match findLabel σ x with
     | some n => ∃ i, (breakC loc x st).1 = .var i ∧ e[i]? = some (.lbl n)
     | none => (breakC loc x st) = (.id, st.fail x) := by
@@ -65,13 +66,13 @@ theorem envRel_lookup_label {tabf σ loc e} (h : Rel tabf σ loc e) (x : String)
 /-- the same for callables: a filter argument is compiled to the index of its closure (term and
 captured environment related to the scope it was written in); a definition — sibling or parent,
 whatever the call type — to its body, with `skip` leading to the environment of its definition. -/
-theorem envRel_lookup_call {tabf σ loc e} (h : Rel tabf σ loc e) (f : String) (ids : List TermId) (tr : Tr) :
+theorem envRel_lookup_call {pe tabf σ loc e} (h : Rel pe tabf σ loc e) (f : String) (ids : List TermId) (tr : Tr) :
     match findCall σ f ids.length with
     | some (.arg t σ') => ∃ i id loc' e', loc.call f ids tr = some (.var i, []) ∧ e[i]? = some (.fn id e') ∧
-        Rel tabf σ' loc' e' ∧ CompiledI tabf loc' t id
+        Rel pe tabf σ' loc' e' ∧ CompiledI pe tabf loc' t id
     | some (.defn d σ') => ∃ id skip ct tr' loc', loc.call f ids tr =
           some (.callDef id (Locals.binds (sigOf d.params) ids) skip ct, tr') ∧
-        Rel tabf σ' loc' (e.drop skip) ∧ DefOK tabf d loc' id
+        Rel pe tabf σ' loc' (e.drop skip) ∧ DefOK pe tabf d loc' id
     | none => loc.call f ids tr = none := by
   have hl := findCall_rel h f ids.length
   unfold LookupOK at hl
@@ -90,52 +91,119 @@ theorem envRel_lookup_call {tabf σ loc e} (h : Rel tabf σ loc e) (f : String) 
 
 /-! ## the main refinement -/
 
-/-- **Main refinement, fragment A** (prefix form, no termination hypothesis): whatever the
+/-- the prelude definition `def !empty: {}[];` (first definition of jaq's `defs.jq`) -/
+def emptyDef : Def := .mk emptyName [] (.path (.obj []) [(.range none none, .essential)])
+
+/-- the table after compiling the prelude `[emptyDef]` -/
+def stEmpty : St := { terms := [.path 1 [(.range none none, .essential)], .objEmpty], errs := [] }
+
+theorem moduleC_emptyDef : moduleC { natives := c01Natives } {} [emptyDef] {} = ([emptyMDef], stEmpty) := by
+  simp only [moduleC, emptyDef]
+  rw [term_path, compileParts_range, compileParts_nil]
+  simp only [it, finishI, term_obj, compileEntries_nil, sumOr_nil, optIt]
+  rfl
+
+theorem compile_emptyDef (t : Term) : compile c01Natives [emptyDef] t =
+    { terms := (it (cxMain true) {} [] t stEmpty).2.2.terms, id := (it (cxMain true) {} [] t stEmpty).1,
+      errs := (it (cxMain true) {} [] t stEmpty).2.2.errs } := by
+  simp only [compile, moduleC_emptyDef]
+  rfl
+
+/-- **Main refinement, fragments A + B** (prefix form, no termination hypothesis): whatever the
 definitional semantics delivers with fuel `n` — a complete outcome (values ended by `done`, an
-error, a break, a halt) or the prefix computed before the fuel ran out — the compiled program
-delivers with enough fuel: complete outcomes identical, prefixes extended. -/
-theorem run_refines_eval_partial (t : Term) (h : inFragment t = true) (v : Val) :
+error, a break, a halt) or the prefix computed before the fuel ran out — the program compiled
+together with the prelude definition `!empty` delivers with enough fuel: complete outcomes
+identical, prefixes extended.  (The semantics needs no prelude: `[]` and `try f` are primitive there.) -/
+theorem run_refines_eval_partial (t : Term) (h : inFragment true t = true) (v : Val) :
+    ∀ n, ∃ m, ∀ m' ≥ m, Pre (eval n 0 [] t v) (runProg cfgF (compile c01Natives [emptyDef] t) m' v) := by
+  intro n
+  rw [compile_emptyDef]
+  have hext : Ext stEmpty (it (cxMain true) {} [] t stEmpty).2.2 := it_extA
+  have hI : CompiledI true (it (cxMain true) {} [] t stEmpty).2.2.terms {} t (it (cxMain true) {} [] t stEmpty).1 :=
+    compiledI_it h (Ext.refl _) (Nat.le_refl _) (fun _ _ _ => rfl)
+  have hpre : PreOK true (it (cxMain true) {} [] t stEmpty).2.2.terms := by
+    intro _
+    exact ⟨by rw [hext.get (by simp [stEmpty])]; rfl, by rw [hext.get (by simp [stEmpty])]; rfl⟩
+  exact simI_of_simT (sim _ hpre n) 0 [] {} [] t v _ h Rel.nil hI
+
+/-- the same without any prelude, for programs that do not use `[]` / `try f` (round-1 statement,
+now for the larger fragment) -/
+theorem run_refines_eval_noprelude_partial (t : Term) (h : inFragment false t = true) (v : Val) :
     ∀ n, ∃ m, ∀ m' ≥ m, Pre (eval n 0 [] t v) (runProg cfgF (compile c01Natives [] t) m' v) := by
   intro n
-  have hI : CompiledI (it cxMain {} [] t {}).2.2.terms {} t (it cxMain {} [] t {}).1 :=
+  have hI : CompiledI false (it (cxMain false) {} [] t {}).2.2.terms {} t (it (cxMain false) {} [] t {}).1 :=
     compiledI_it h (Ext.refl _) (Nat.le_refl _) (fun _ _ _ => rfl)
-  exact simI_of_simT (sim _ n) 0 [] {} [] t v _ h Rel.nil hI
+  exact simI_of_simT (sim _ (fun h => by cases h) n) 0 [] {} [] t v _ h Rel.nil hI
 
 /-- complete outcomes are reproduced exactly -/
-theorem run_eq_eval_of_complete_partial (t : Term) (h : inFragment t = true) (v : Val) (n : Nat)
+theorem run_eq_eval_of_complete_partial (t : Term) (h : inFragment true t = true) (v : Val) (n : Nat)
+    (hc : (eval n 0 [] t v).stop ≠ .fuel) :
+    ∃ m, ∀ m' ≥ m, runProg cfgF (compile c01Natives [emptyDef] t) m' v = eval n 0 [] t v := by
+  obtain ⟨m, hm⟩ := run_refines_eval_partial t h v n
+  exact ⟨m, fun m' hm' => (hm m' hm').1 hc⟩
+
+theorem run_eq_eval_of_complete_noprelude_partial (t : Term) (h : inFragment false t = true) (v : Val) (n : Nat)
     (hc : (eval n 0 [] t v).stop ≠ .fuel) :
     ∃ m, ∀ m' ≥ m, runProg cfgF (compile c01Natives [] t) m' v = eval n 0 [] t v := by
-  obtain ⟨m, hm⟩ := run_refines_eval_partial t h v n
+  obtain ⟨m, hm⟩ := run_refines_eval_noprelude_partial t h v n
   exact ⟨m, fun m' hm' => (hm m' hm').1 hc⟩
 
 /-- the invariant form used by the induction: any related scope / locals / environment, any
 label counter, any sub-term compiled into the final table -/
-theorem sim_invariant_partial (tabf : List CTerm) (n L : Nat) (σ : Env) (loc : Locals) (e : MEnv) (t : Term)
-    (v : Val) (id : TermId) (h : inFragment t = true) (hrel : Rel tabf σ loc e) (hc : CompiledI tabf loc t id) :
+theorem sim_invariant_partial (pe : Bool) (tabf : List CTerm) (hpre : PreOK pe tabf) (n L : Nat) (σ : Env) (loc : Locals)
+    (e : MEnv) (t : Term) (v : Val) (id : TermId) (h : inFragment pe t = true) (hrel : Rel pe tabf σ loc e)
+    (hc : CompiledI pe tabf loc t id) :
     ∃ m, ∀ m' ≥ m, Pre (eval n L σ t v) (run cfgF tabf m' L e id v) :=
-  simI_of_simT (sim tabf n) L σ loc e t v id h hrel hc
+  simI_of_simT (sim tabf hpre n) L σ loc e t v id h hrel hc
 
-/-- the frame property of the compiler: it only appends to the table -/
-theorem compile_appends_partial (t : Term) (h : inFragment t = true) (cx : Cx) (loc : Locals) (tr : Tr) (st : St) :
+/-- **destructuring**: the compiled pattern `Compiler::pattern`, run by `bind_pat(s)` in the
+environment `e`, yields exactly the matches of the manual's pattern semantics in the scope `σ`,
+in the same order and with the same error, where EVERY key filter `(f): …` — also those of
+nested patterns, also after earlier entries of the same pattern have bound variables — is
+evaluated in `σ` / `e`, the context OUTSIDE the whole pattern; the environment of each match is
+`e` with the pattern's variables pushed in `Pattern::vars` order (`toM`). -/
+theorem pattern_refines_partial (pe : Bool) (tabf : List CTerm) (hpre : PreOK pe tabf) (n L : Nat) (σ : Env) (loc : Locals)
+    (e : MEnv) (hrel : Rel pe tabf σ loc e) (p : Pattern) (hfr : inFragmentPat pe p = true) (st0 : St)
+    (hag : AgreeFrom st0.terms.length (pattern (cxMain pe) loc p st0).2.terms tabf) (w : Val) :
+    ∃ m, ∀ m' ≥ m, Pre (mapO (toM e p.vars.length) (bindPat (eval n L σ) p w σ))
+      (bindPatM (run cfgF tabf m' L e) (pattern (cxMain pe) loc p st0).1 w e) :=
+  pat_sim (SimI.tsim (simI_of_simT (sim tabf hpre n)) hrel).key p hfr st0 _ _ (Ext.refl _) (Nat.le_refl _) hag w
+
+/-- every match extends the invariant by exactly the pattern's variables, in `Pattern::vars`
+order — so that `Compiler::var` finds each of them (and everything outside) at the right index -/
+theorem pattern_binds_vars_in_order (pe : Bool) (tabf : List CTerm) (ev0 : Term → Val → Out) (σ : Env) (loc : Locals) (e : MEnv)
+    (hrel : Rel pe tabf σ loc e) (p : Pattern) (w : Val) :
+    ∀ ρ' ∈ (bindPat ev0 p w σ).vals, Rel pe tabf ρ' (loc.pushVars p.vars) (toM e p.vars.length ρ') :=
+  pat_rel ev0 hrel p w
+
+/-- the frame property of the compiler, for every term: it only appends to the table -/
+theorem compile_appends (t : Term) (cx : Cx) (loc : Locals) (tr : Tr) (st : St) :
     ∃ s, (term cx loc tr t st).2.2.terms = st.terms ++ s :=
-  term_ext h cx loc tr st
+  term_ext t cx loc tr st
+
+theorem compile_appends_partial (t : Term) (_h : inFragment true t = true) (cx : Cx) (loc : Locals) (tr : Tr) (st : St) :
+    ∃ s, (term cx loc tr t st).2.2.terms = st.terms ++ s :=
+  compile_appends t cx loc tr st
 
 /-- the set of tail calls a compiled term may return is a subset of the set it was allowed
-(`debug_assert!(tr_.is_subset(tr))` in `iterm_tr`), for every term of the fragment, every
-compile context, locals and table -/
-theorem compile_tr_subset_partial (t : Term) (h : inFragment t = true) (cx : Cx) (loc : Locals) (tr : Tr) (st : St) :
+(`debug_assert!(tr_.is_subset(tr))` in `iterm_tr`), for EVERY term, compile context, locals, table -/
+theorem compile_tr_subset (t : Term) (cx : Cx) (loc : Locals) (tr : Tr) (st : St) :
     ∀ x ∈ (term cx loc tr t st).2.1, x ∈ tr :=
-  tr_subset_aux (sizeOf t + 1) t (by omega) h cx loc tr st
+  tr_subset_aux (sizeOf t + 1) t (by omega) cx loc tr st
+
+theorem compile_tr_subset_partial (t : Term) (_h : inFragment true t = true) (cx : Cx) (loc : Locals) (tr : Tr) (st : St) :
+    ∀ x ∈ (term cx loc tr t st).2.1, x ∈ tr :=
+  compile_tr_subset t cx loc tr st
 
 /-! ## corollaries -/
 
 /-- `f op g` behaves as `f as $x | g as $y | $x op $y`: `f` is the outer loop, `g` the inner one,
 an error of `f` or `g` ends the stream where the nested binding would raise it. -/
-theorem math_cartesian_order (l r : Term) (op : MathOp) (hl : inFragment l = true) (hr : inFragment r = true)
+theorem math_cartesian_order (l r : Term) (op : MathOp) (hl : inFragment false l = true) (hr : inFragment false r = true)
     (v : Val) (n : Nat) :
     ∃ m, ∀ m' ≥ m, Pre (cartSem (eval n 0 [] l v) (fun _ => eval n 0 [] r v) (mathOp op))
       (runProg cfgF (compile c01Natives [] (.binop l (.math op) r)) m' v) := by
-  have := run_refines_eval_partial (.binop l (.math op) r) (by simp [inFragment, Bop.inFragment, hl, hr]) v (n+1)
+  have := run_refines_eval_noprelude_partial (.binop l (.math op) r) (by simp [inFragment, Bop.inFragment, hl, hr]) v (n+1)
   rw [eval] at this
   exact this
 
@@ -154,8 +222,8 @@ theorem shadowing_nearest_compiled (a b : String) (v : Val) :
     ∃ m, ∀ m' ≥ m, runProg cfgF (compile c01Natives []
         (.pipe (.num a) (some (.var "$x")) (.pipe (.num b) (some (.var "$x")) (.var "$x")))) m' v
       = .done [numLit b] := by
-  obtain ⟨m, hm⟩ := run_eq_eval_of_complete_partial
-    (.pipe (.num a) (some (.var "$x")) (.pipe (.num b) (some (.var "$x")) (.var "$x"))) (by simp [inFragment]) v 3
+  obtain ⟨m, hm⟩ := run_eq_eval_of_complete_noprelude_partial
+    (.pipe (.num a) (some (.var "$x")) (.pipe (.num b) (some (.var "$x")) (.var "$x"))) (by simp [inFragment, inFragmentPat]) v 3
     (by simp [eval, bindPat, OutG.bind, OutG.done, findVar])
   refine ⟨m, fun m' hm' => ?_⟩
   rw [hm m' hm']
@@ -166,6 +234,32 @@ parameter is used -/
 theorem closure_captures_definition_env (n L : Nat) (ρ ρ' : Env) (p : String) (t : Term) (v : Val) :
     eval (n+1) L (.arg p t ρ' :: ρ) (.call p []) v = eval n L ρ' t v := by
   rw [eval]; simp [findCall]
+
+/-- `{(k): w}` behaves as `k as $k | w as $v | {($k): $v}`: keys outer loop, values inner loop -/
+theorem obj_entry_order (k w : Term) (hk : inFragment true k = true) (hw : inFragment true w = true) (v : Val) (n : Nat) :
+    ∃ m, ∀ m' ≥ m, Pre (cartSem (eval n 0 [] k v) (fun _ => eval n 0 [] w v) (fun kk vv => .ok (.obj [(kk, vv)])))
+      (runProg cfgF (compile c01Natives [emptyDef] (.obj [(k, some w)])) m' v) := by
+  have := run_refines_eval_partial (.obj [(k, some w)]) (by simp [inFragment, inFragmentEntries, hk, hw]) v (n+1)
+  rw [eval] at this
+  simpa [sumSem, objEntrySem_some] using this
+
+/-- `f[x][y]` behaves as `f as $f | x as $x | y as $y | $f | .[$x] | .[$y]`: per output of `f`,
+the index filters run on the original input, the first part being the outermost loop -/
+theorem path_index_order (f x y : Term) (o1 o2 : Opt) (hf : inFragment true f = true) (hx : inFragment true x = true)
+    (hy : inFragment true y = true) (v : Val) (n : Nat) :
+    ∃ m, ∀ m' ≥ m, Pre
+      (let of := eval n 0 [] f v
+       OutG.bind of.vals of.stop fun fv =>
+        let ps := (let ox := eval n 0 [] x v
+          OutG.bind ox.vals ox.stop fun xv =>
+            let oy := eval n 0 [] y v
+            OutG.bind oy.vals oy.stop fun yv => (OutG.done [[(VPart.index xv, o1), (VPart.index yv, o2)]] : OutG (List (VPart × Opt))))
+        OutG.bind ps.vals ps.stop fun p => runParts p fv)
+      (runProg cfgF (compile c01Natives [emptyDef] (.path f [(.index x, o1), (.index y, o2)])) m' v) := by
+  have := run_refines_eval_partial (.path f [(.index x, o1), (.index y, o2)])
+    (by simp [inFragment, inFragmentPath, hf, hx, hy]) v (n+1)
+  rw [eval] at this
+  simpa [explodeSem_index, explodeSem_nil] using this
 
 /-! ## non-vacuity: concrete programs inside the fragment -/
 
@@ -188,8 +282,33 @@ def exLabel : Term :=
 /-- a non-commutative operator with two multi-valued operands: `(1, 2) - (10, 20)` -/
 def exCart : Term := .binop (.binop (.num "1") .comma (.num "2")) (.math .sub) (.binop (.num "10") .comma (.num "20"))
 
-example : inFragment exBinders = true := by decide
-example : inFragment exLabel = true := by decide
-example : inFragment exCart = true := by decide
+/-- a nested object pattern whose computed key mentions a variable bound outside the pattern
+and rebound by an earlier entry of the same pattern; `reduce` with an array-in-object pattern;
+`try` without `catch`, `[]`, `elif`, an object with multi-valued key, interpolation, a slice:
+`"a" as $k | {"k":"b","n":{"a":1,"b":2}} as {k: $k, n: {($k): $y}} | [$k, $y]`,
+`reduce .[] as {a: [$x, $y]} ([]; . + [$x]) | try error`,
+`if . then {("a","b"): "\(.)"} elif .[1:] then .. else .[]? end` -/
+def exNestedKey : Term :=
+  .pipe (.str none [.lit "a"]) (some (.var "$k"))
+    (.pipe (.obj [(.str none [.lit "k"], some (.str none [.lit "b"])),
+        (.str none [.lit "n"], some (.obj [(.str none [.lit "a"], some (.num "1")), (.str none [.lit "b"], some (.num "2"))]))])
+      (some (.obj [(.str none [.lit "k"], .var "$k"), (.str none [.lit "n"], .obj [(.var "$k", .var "$y")])]))
+      (.arr (some (.binop (.var "$k") .comma (.var "$y")))))
+def exFoldPat : Term :=
+  .pipe (.fold "reduce" (.path .id [(.range none none, .essential)])
+      (.obj [(.str none [.lit "a"], .arr [.var "$x", .var "$y"])])
+      [.arr none, .binop .id (.math .add) (.arr (some (.var "$x")))]) none
+    (.tryCatch (.call "error_empty" []) none)
+def exMisc : Term :=
+  .ite [(.id, .obj [(.binop (.str none [.lit "a"]) .comma (.str none [.lit "b"]), some (.str none [.interp .id]))]),
+      (.path .id [(.range (some (.num "1")) none, .essential)], .recurse)]
+    (some (.path .id [(.range none none, .optional)]))
+
+example : inFragment false exBinders = true := by decide
+example : inFragment false exLabel = true := by decide
+example : inFragment false exCart = true := by decide
+example : inFragment false exNestedKey = true := by decide
+example : inFragment true exFoldPat = true := by decide
+example : inFragment false exMisc = true := by decide
 
 end Jaq.Core
